@@ -8,21 +8,30 @@ or falls in a known-finding class decided by the extracted Gallina class predica
 import vlib, re, subprocess
 
 MANIFEST = {
-  'text': 'Theorems about Model/Wire.v (a hand-written Gallina mirror of the token printers/parsers in common/proto.rs, common/cluster.rs, '
-          'common/config.rs, replication/replicator.rs, migration/task.rs and the INFOMGR join/split pair): parse(encode m) = Ok(normalize m) for range lists, '
-          'migration metadata, slot ranges, task descriptors (token vector and space-joined string), SwitchArg, cluster config (every field order), '
-          'node maps, the plain SETCLUSTER vector (general statement with drop_empty_nodes, exact statement without empty nodes), the compressed vector, '
-          'and SETREPL; every strict prefix of a fixed-arity record is rejected; every truncation of a SETCLUSTER / SETREPL vector is rejected except at '
-          'group / record boundaries (class predicates); parser results are well-formed fixpoints of the round trip; witness lemmas that the plain format '
-          'is not robust.  The model is tied to the code by running the real functions and the extracted model on the same values and token vectors.',
-  'note': 'Coq kernel, no axioms (closed under the global context); the compressed form is conditional on the Section hypothesis '
-          'pack_roundtrip (unpack (pack d) = Some d, standing for serde_json+gzip+base64), which the harness tests against the real libraries on every '
-          'generated value together with a mutation sweep of the base64 text.  Tokens are ASCII in the correspondence (String::to_uppercase/to_lowercase '
-          'are modelled on ASCII letters; non-UTF-8 tokens are silently dropped by from_resp, i.e. behave as deletions).  Overflow panic of '
-          'RangeList::compact is modelled for the overflow-checked build.  The last clause of the property is false of the plain format: '
-          'the residue is the known-finding classes has_empty_node, at_group_boundary, at_config_value_cut, at_record_boundary, in_language, '
-          'flags_token_unrecognized, trailing tokens.  Not covered: the broker-side commit of a reported descriptor (Broker model), '
-          'coordinator generate_*_cmd_args (Proxy -> message value).',
+  'text': 'Nineteen Coq theorems (Props/C17.v) about Model/Wire.v, a hand-written Gallina mirror of the token printers and parsers in common/proto.rs, '
+          'common/cluster.rs, common/config.rs, common/utils.rs, replication/replicator.rs, migration/task.rs, the INFOMGR join/split pair and the message '
+          'construction of coordinator/sync.rs.  Round trips parse(encode x ++ rest) = Ok(normal form of x, rest) for every value: C17_range_list (incl. '
+          'RangeList::compact; identity on compact lists), C17_migration_meta, C17_slot_range, C17_task (token vector and space-joined INFOMGR string; a descriptor '
+          'with a compact range list comes back EQUAL), C17_switch_arg, C17_cluster_plain (every HashMap order of nodes and config fields; drop_empty_nodes), '
+          'C17_cluster_plain_exact (no empty node: normalize m, and m itself when compact), C17_cluster_compressed (under pack_roundtrip), C17_repl.  '
+          'Truncation: C17_fixed_arity_truncation (every strict prefix of the five leaf records is rejected), C17_cluster_truncation and C17_repl_truncation '
+          '(every truncation rejected except at the class predicates at_group_boundary / at_config_value_cut / at_record_boundary).  Soundness: C17_slot_range_sound, '
+          'C17_parse_sound, C17_repl_sound (an accepted vector is token-wise the printer output of a raw value whose normal form is the result; sections grammar; '
+          'every token accounted for), C17_compact_normal_form (compaction yields sorted, disjoint, non-adjacent ranges), C17_no_fuel_error.  Witnesses by computation: '
+          'C17_empty_node_witness, C17_format_not_robust_witness (deleting PEER, cutting at a group boundary, cutting a config pair).  The model is tied to the code by '
+          'running the real encoders/parsers (incl. ProxyMetaRespSender::send_meta and MigrationStateRespChecker::check through the cfg-guarded coordinator re-export) '
+          'and the extracted model on the same values and on ALL truncations / single-token deletions / a fixed corruption set of every real message.',
+  'note': 'Coq kernel, no axioms (every theorem closed under the global context; coqchk in the thorough tier).  C17_cluster_compressed is conditional on the hypothesis '
+          'pack_roundtrip (unpack (pack d) = Some d, standing for serde_json + gzip(flate2) + base64), visible in its statement; the harness tests it against the real '
+          'libraries on every generated value (pcm_zrt) and sweeps mutations of the base64 text (all rejected or decoded identically).  Partial: (1) tokens are ASCII in '
+          'the correspondence - String::to_uppercase/to_lowercase are modelled on ASCII letters, and from_resp silently drops non-UTF-8 tokens (= a deletion); '
+          '(2) the overflow panic of RangeList::compact (`s.end() + 1`) is modelled for the overflow-checked build that the harness can produce (it wraps in an '
+          'unchecked build); the two in-bounds `expect`s of that loop are not represented (list model); (3) the last clause of the property is false of the plain '
+          'formats: what is proved instead is soundness + the truncation theorems, and the accepted-but-different residue is recorded as eight known-finding classes '
+          '(Gallina predicates has_empty_node, at_group_boundary, at_config_value_cut / config_error_tolerated, at_record_boundary, in_language / repl_in_language, '
+          'in_language_regrouped, flags_token_unrecognized, left-over tokens); a mutated vector accepted outside them is a VIOLATION; (4) not covered: the broker-side '
+          'commit of a reported descriptor (C17_commit_accepts belongs to the Broker model; here the descriptor is proved and checked to arrive EQUAL), replica-role '
+          'filtering is modelled (coord_repl / coord_pcm) and checked by correspondence only, not stated as a theorem.',
   'technique': 'Coq proof over a hand-written model + differential correspondence check against the real code',
  }
 
@@ -30,7 +39,8 @@ TRUSTED = ['Coq 8.16.1 kernel (coqc; coqchk in the thorough tier); no axioms (Pr
            'Section hypothesis pack_roundtrip for serde_json+gzip(flate2)+base64 (C17_cluster_compressed only); tested on every generated value by pcm_zrt',
            'extraction with ExtrOcamlBasic only (+ Extraction Blacklist List: file renaming) + ocaml/vio.ml, d_wire.ml, driver_lib.ml',
            'harness/wire/src/dom.rs: value construction through public constructors (RangeList::get_mut_ranges to build non-compact lists), canonical printing',
-           'textual pin: executor.rs joins task.into_strings() with " "; coordinator/migration.rs splits on \' \' and calls MigrationTaskMeta::from_strings (repeated in the harness)',
+           'hook: #[cfg(undermoon_verif)] pub mod verif in /repo/src/coordinator/mod.rs (re-export of ProxyMetaRespSender / MigrationStateRespChecker); fake recording RedisClient in the harness',
+           'textual pin: executor.rs joins task.into_strings() with " "; coordinator/migration.rs splits on \' \' and calls MigrationTaskMeta::from_strings (task_unstr corpus cases repeat the two statements)',
            'tokens restricted to ASCII (to_uppercase / to_lowercase modelled on ASCII letters)']
 
 G = 'wire'
